@@ -1,6 +1,7 @@
 package sim
 
 import (
+	ophosttypes "github.com/initia-labs/OPinit/x/ophost/types"
 	"context"
 	"errors"
 	"fmt"
@@ -209,4 +210,18 @@ func (p BankMsgProxy) Send(ctx context.Context, msg *banktypes.MsgSend) (*bankty
 		}
 	}
 	return p.MsgServer.Send(ctx, msg)
+}
+
+// HookedBank wraps the bank keeper handed to ophost: OnSend, when set, runs inside SendCoins before the transfer (the
+// place where a bank send restriction or a transfer hook of the host chain runs, with the caller's context).
+type HookedBank struct {
+	ophosttypes.BankKeeper
+	OnSend *func(ctx context.Context, from, to sdk.AccAddress, amt sdk.Coins)
+}
+
+func (h HookedBank) SendCoins(ctx context.Context, from, to sdk.AccAddress, amt sdk.Coins) error {
+	if h.OnSend != nil && *h.OnSend != nil {
+		(*h.OnSend)(ctx, from, to, amt)
+	}
+	return h.BankKeeper.SendCoins(ctx, from, to, amt)
 }
